@@ -15,7 +15,7 @@ oracle : on the implementation alone: ACL verdict = python longest-prefix refere
 import os
 import vcommon as V
 import eval_util as EU
-from gen import aclgen, evalgen, proggen, seriesgen, rebindgen
+from gen import aclgen, evalgen, proggen, seriesgen, rebindgen, regroupgen
 
 
 def _acl_requests(rng, n_acl, stats):
@@ -71,8 +71,8 @@ def run_acl(ctx, model, impl, thorough):
             rng.shuffle(sh)
             perm_req.append("%s %s" % (",".join(e.text() for e in sh), ",".join(aclgen.addr_text(f, b_) for f, b_ in ps)))
             perm_of.append(idx)
-    irep = V.run_batch(impl + ["acl"], ireq + perm_req, hang_s=10)
-    mrep = V.run_batch([model], mreq, hang_s=60)
+    irep = EU.run_sharded(impl + ["acl"], ireq + perm_req, hang_s=10)
+    mrep = EU.run_sharded([model], mreq, hang_s=60)
     probes = agree = 0
     outcomes = {}
     distinct = set()
@@ -293,8 +293,8 @@ def run_programs(ctx, model, impl, thorough):
     progs += [(proggen.gen_big_switch if rng.random() < 0.6 else proggen.gen_big_if)(rng, stats) for _ in range(20000 if thorough else 700)]
     ireq = ["- %s %s" % (v.encode().hex(), ",".join(names) or "-") for v, s, names in progs]
     mreq = ["prog " + s for v, s, names in progs]
-    irep = V.run_batch(impl + ["evalprog"], ireq, hang_s=5)
-    mrep = V.run_batch([model], mreq, hang_s=60)
+    irep = EU.run_sharded(impl + ["evalprog"], ireq, hang_s=5)
+    mrep = EU.run_sharded([model], mreq, hang_s=60)
     out = {}
     agree = 0
     for (v, s, names), ir, mr in zip(progs, irep, mrep):
@@ -339,10 +339,10 @@ def run_rebinding(ctx, model, impl, thorough):
         for src, res in fresh:
             gq.append("- %s %s" % (src.encode().hex(), ",".join(res)))
             gidx.append(i)
-    rep = V.run_batch(impl + ["evalprog"], ireq + freq + wreq + gq, hang_s=5)
+    rep = EU.run_sharded(impl + ["evalprog"], ireq + freq + wreq + gq, hang_s=5)
     irep, frep = rep[:len(ireq)], rep[len(ireq):len(ireq) + len(freq)]
     wrep, grep_ = rep[len(ireq) + len(freq):len(ireq) + len(freq) + len(wreq)], rep[len(ireq) + len(freq) + len(wreq):]
-    mrep = V.run_batch([model], mreq, hang_s=60)
+    mrep = EU.run_sharded([model], mreq, hang_s=60)
     agree = meta_ok = regex_ok = 0
     for (v, s, names, fresh), ir, mr in zip(rb, irep, mrep):
         ist, idd = _canon_prog(ir, "impl")
@@ -387,6 +387,51 @@ def run_rebinding(ctx, model, impl, thorough):
     return len(rep), len(set(ireq + wreq))
 
 
+def run_regroup(ctx, model, impl, thorough):
+    """re.group.N after histories of matches (succeeding / failing, 0-4 groups, repeated with other subjects) and subroutine
+    calls, against Model/ReGroup.v; the match answers are Go's own (oracle), the group bookkeeping is what is compared"""
+    rng = ctx.rng
+    cases = []
+    for _ in range(20000 if thorough else 600):
+        ops = regroupgen.gen_ops(rng, 2, rng.randint(1, 6))
+        subs, body, steps, pairs = regroupgen.render(ops)
+        cases.append((ops, subs, body, steps, pairs))
+    ireq = ["%s %s %s %s" % (subs.encode().hex() or "-", body.encode().hex(), ",".join(steps),
+                             ",".join("%s:%s" % (p.encode().hex(), t.encode().hex()) for p, t in pairs)) for ops, subs, body, steps, pairs in cases]
+    irep = EU.run_sharded(impl + ["evalprog"], ireq, hang_s=5)
+    mreq = []
+    for (ops, subs, body, steps, pairs), ir in zip(cases, irep):
+        ans = []
+        for w in (ir or "").split():
+            if w.startswith("re") and "=" in w and w[2:w.index("=")].isdigit():
+                v = w.split("=", 1)[1]
+                ans.append(None if v in ("x", "e") else [h for h in v.split(":", 1)[1].split(";")])
+        try:
+            mreq.append("regroup (%s)" % regroupgen.model_ops(ops, iter(ans)))
+        except StopIteration:
+            mreq.append("regroup ()")
+    mrep = EU.run_sharded([model], mreq, hang_s=60)
+    agree = 0
+    steps_n = 0
+    for (ops, subs, body, steps, pairs), ir, mr in zip(cases, irep, mrep):
+        st, vals = _canon_prog(" ".join(w for w in (ir or "none").split() if not (w.startswith("re") and w[2:3].isdigit())), "impl")
+        got = [vals.get(h, ("?",)) for h in steps]
+        got = [(g[1] if len(g) > 1 and g[0] == "S" else "?") for g in got]
+        want = (mr or "").split()[1:]
+        steps_n += len(steps)
+        if st == "ok" and got == want:
+            agree += 1
+        else:
+            k = next((i for i, (a, b) in enumerate(zip(got, want)) if a != b), min(len(got), len(want)))
+            ctx.violation("re.group.N differs from Model/ReGroup.v at step %d of a match / call history (interpreter %s, model %s)" % (
+                k, bytes.fromhex(got[k]).decode("latin1") if k < len(got) and got[k] != "?" else "?",
+                bytes.fromhex(want[k]).decode("latin1") if k < len(want) else "?"),
+                {"subroutines": subs, "program": body, "impl": ir, "model_request": mreq[cases.index((ops, subs, body, steps, pairs))], "model": mr})
+    ctx.coverage["regroup"] = {"histories": len(cases), "agree_with_model": agree, "steps_compared": steps_n,
+                               "patterns": regroupgen.PATS, "subjects": regroupgen.SUBJ}
+    return len(cases), len(set(ireq))
+
+
 # minimised inputs of the concatenation defects repaired in interpreter/expression.go (run first):
 # (items, variables, expression text)
 _T0 = ("T", 1758800000, 0, 0)
@@ -414,8 +459,8 @@ def run_series(ctx, model, impl, thorough):
         for b in kinds:
             for sg in ("_", "+"):
                 cases.append(([("_", "V", a), (sg, "V", b)], [a, b], "var.v0 %svar.v1" % ("+ " if sg == "+" else "")))
-    irep = V.run_batch(impl + ["evalseries"], [seriesgen.impl_request(*c) for c in cases], hang_s=5)
-    mrep = V.run_batch([model], [seriesgen.model_request(c[0]) for c in cases], hang_s=60)
+    irep = EU.run_sharded(impl + ["evalseries"], [seriesgen.impl_request(*c) for c in cases], hang_s=5)
+    mrep = EU.run_sharded([model], [seriesgen.model_request(c[0]) for c in cases], hang_s=60)
     agree = 0
     out = {}
     for c, ir, mr in zip(cases, irep, mrep):
@@ -455,7 +500,16 @@ def run(ctx):
     n3, d3 = run_programs(ctx, model, impl, thorough)
     n4, d4 = run_series(ctx, model, impl, thorough)
     n5, d5 = run_rebinding(ctx, model, impl, thorough)
-    n3, d3 = n3 + n4 + n5, d3 + d4 + d5
+    n6, d6 = run_regroup(ctx, model, impl, thorough)
+    n3, d3 = n3 + n4 + n5 + n6, d3 + d4 + d5 + d6
+    if not proved and not ctx.violations:
+        V.log("C07: proof obligation broken (%s) and no failing input yet: escalating the search to the thorough volumes" % ctx.broken)
+        for part in (lambda: run_acl(ctx, model, impl, True), lambda: run_series(ctx, model, impl, True), lambda: run_rebinding(ctx, model, impl, True),
+                     lambda: run_regroup(ctx, model, impl, True), lambda: run_programs(ctx, model, impl, True), lambda: run_cells(ctx, model, impl, True)):
+            part()
+            if ctx.violations:
+                break
+        ctx.coverage["escalated_search"] = True
     if not proved and not ctx.violations:
         ctx.violation("proof obligation of C07 no longer checks: " + (ctx.broken or "Props/C07.v"),
                       {"no_failing_input": True, "broken": ctx.broken,
